@@ -65,7 +65,7 @@ func intM(m, n, salt, e int) M {
 }
 
 func genNorms(g *vlib.G) {
-	N := vlib.Pick(g, 6, 9)
+	N := vlib.Pick(g, 9, 12)
 	exps := []int{0, 600, -600}
 	// Dlange, Dlantr (trapezoidal)
 	for m := 0; m <= N; m++ {
@@ -274,7 +274,7 @@ func genNorms(g *vlib.G) {
 		}
 	}
 	// tridiagonal: Dlangt, Dlanst
-	for n := 0; n <= vlib.Pick(g, 9, 14); n++ {
+	for n := 0; n <= vlib.Pick(g, 14, 20); n++ {
 		for _, e := range exps {
 			n, e := n, e
 			g.Case(fmt.Sprintf("Dlangt/Dlanst n=%d exp=%d", n, e), func(t *vlib.T) {
